@@ -561,7 +561,7 @@ def run_c17(pid, tier, rep, deadline_s):
                                    'exhaustive': all(b['completed'] for b in bounds), 'rule': 'Grammar part: run-time construction of parsers whose rules mention an undeclared symbol in every position kind must throw (compiled black-box program, g++ and clang++).'})
 
 # ----------------------------------------------------------------------------- C15: histories, schedules, TSan
-C15_RULE = 'Call alphabet of 14 calls on two parser objects (generated lexer + typed term + error rule; custom lexer): accepted, recovering, failing-at-eof, lexical-error and failing-recovery parses, a verbose parse, context_parse with a mutated context, write_diag_str. (1) Histories: every call sequence up to the depth bound runs in its own forked process on parser objects placed in read-only (mprotect) pages; after every call the bytes of the parser objects and of the program\'s .data/.bss must be unchanged and the last call must observe (result, functor log, stream text) exactly what it observes as the first call of a fresh process. (2) Schedules: for 12 pairs of calls two real threads run under a baton-passing scheduler with scheduling points in every user-supplied seam (buffer iterator dereference/increment, functor call, stream <<, custom lexer match); every schedule with at most 2 preemptions is executed (stateless depth-first enumeration by choice-sequence replay, one forked process per execution, divergence on replay is a harness error); each thread must observe its isolated result. (3) Side condition, not the deciding step: the same bodies free-running on 3 threads under ThreadSanitizer.'
+C15_RULE = 'Call alphabet of 14 calls on two parser objects (generated lexer + typed term + error rule; custom lexer): accepted, recovering, failing-at-eof, lexical-error and failing-recovery parses, a verbose parse, context_parse with a mutated context, write_diag_str. (1) Histories: every call sequence up to the depth bound runs in its own forked process on parser objects placed in read-only (mprotect) pages; after every call the bytes of the parser objects and of the program\'s .data/.bss must be unchanged and the last call must observe (result, functor log, stream text) exactly what it observes as the first call of a fresh process. (2) Schedules: for 12 pairs of calls two real threads run under a baton-passing scheduler with scheduling points in every user-supplied seam (buffer iterator dereference/increment, functor call, stream <<, custom lexer match); every schedule with at most 2 preemptions is executed (stateless depth-first enumeration by choice-sequence replay, one forked process per execution, divergence on replay is a harness error); each thread must observe its isolated result; the same for 6 triples of calls on three threads (which thread starts and which continues after one ends are enumerated as free choices, preemption bound 1 quick / 2 thorough). (3) Side condition, not the deciding step: the same bodies free-running on 3 threads under ThreadSanitizer.'
 
 def run_c15(pid, tier, rep, deadline_s):
     q = tier == 'quick'
@@ -601,6 +601,20 @@ def run_c15(pid, tier, rep, deadline_s):
         bounds.append({'pass': 'all schedules with <=%d preemptions, 2 threads x 1 call, %d call pairs (up to %d scheduling points per execution)' % (bound, tot['pairs'], tot['maxp']), 'completed': ok, 'schedules': tot['schedules']})
         samples.append({'mode': 'sched', 'result': tot}); states += tot['schedules']; trans += tot['scheduling_points']; cases += tot['schedules']
         extra = tot
+        # three threads, one call each: every choice of who starts, who continues after a thread ends, and at most 1 preemption (quick) / 2 (thorough)
+        b3 = 1 if q else 2
+        with ThreadPoolExecutor(max_workers=6) as ex: outs3 = list(ex.map(lambda k: sh([exe, 'sched', str(b3), '%d/6' % k, '3'], timeout=deadline_s), range(6)))
+        t3 = {'schedules': 0, 'scheduling_points': 0, 'failures': 0}; first3 = ''; ok3 = True
+        for r in outs3:
+            res = parse(r)
+            if res is None or 'harness_error' in res:
+                if res and 'harness_error' in res: harness_error('schedule replay diverged (3 threads): ' + res['harness_error'])
+                rep.add({'kind': 'program-crashed', 'known': '', 'engine': 'sched', 'summary': '3-thread schedule exploration exited %s: %s' % (r.returncode, (r.stdout + r.stderr)[-300:])}); ok3 = False; continue
+            t3['schedules'] += res['schedules']; t3['scheduling_points'] += res['scheduling_points']; t3['failures'] += res['failures']
+            if res['failures'] and not first3: first3 = res['first_failure']
+        if t3['failures']: rep.add({'kind': 'schedule-dependent-call', 'known': '', 'engine': 'sched', 'summary': first3, 'count': t3['failures'], 'mode': 'sched3', 'bound': b3})
+        bounds.append({'pass': 'all schedules with <=%d preemptions, 3 threads x 1 call, 6 call triples' % b3, 'completed': ok3, 'schedules': t3['schedules']})
+        samples.append({'mode': 'sched3', 'result': t3}); states += t3['schedules']; trans += t3['scheduling_points']; cases += t3['schedules']
     if not isinstance(exet, tuple):
         env = dict(os.environ); env['TSAN_OPTIONS'] = 'halt_on_error=1 exitcode=66'
         r = subprocess.run([exet, 'free', '20' if q else '200'], stdout=subprocess.PIPE, stderr=subprocess.PIPE, universal_newlines=True, env=env, timeout=deadline_s)
